@@ -1818,7 +1818,10 @@ class Scheduler:
         # Record the job as pending, since we're submitting it.
         # Note that if the CSE is disabled, this job might have the same `eval_hash` as a prior
         # one. We don't care about overwriting, however, since they're all equivalent.
-        self._pending_jobs[(job.eval_hash, job.context_hash)] = job
+        # A job that does not record provenance is not equivalent though: it has no CallNode
+        # that a job collapsing into it could refer to.
+        if job.recording_provenance():
+            self._pending_jobs[(job.eval_hash, job.context_hash)] = job
 
         # Submit job.
         if not job.task.script:
